@@ -24,3 +24,10 @@ package syncx
 //@   trusted
 //@   ensures result == abVal[b]
 //@   modifies nothing
+
+//@ func (sl *SpinLock) Lock
+//@   trusted
+//@   modifies nothing
+//@ func (sl *SpinLock) Unlock
+//@   trusted
+//@   modifies nothing
